@@ -19,6 +19,45 @@ pub struct Known {
   pub signature: String,
   pub predicate: Option<String>,
   pub what: String,
+  pub reproducer: Value,
+}
+
+/// `*` in a known finding's signature matches any run of characters.
+pub fn sig_matches(pattern: &str, sig: &str) -> bool {
+  if !pattern.contains('*') {
+    return pattern == sig;
+  }
+  let parts: Vec<&str> = pattern.split('*').collect();
+  let mut pos = 0usize;
+  for (i, part) in parts.iter().enumerate() {
+    if part.is_empty() {
+      continue;
+    }
+    if i == 0 {
+      if !sig.starts_with(part) {
+        return false;
+      }
+      pos = part.len();
+    } else if i == parts.len() - 1 {
+      return sig.len() >= pos + part.len() && sig[pos..].ends_with(part);
+    } else {
+      match sig[pos..].find(part) {
+        Some(k) => pos += k + part.len(),
+        None => return false,
+      }
+    }
+  }
+  true
+}
+
+impl Known {
+  pub fn matches(&self, property: &str, v: &Violation, pred: &dyn Fn(&str, &Violation) -> bool) -> bool {
+    self.status == "known"
+      && self.property == property
+      && self.class.split('|').any(|c| c == v.class)
+      && sig_matches(&self.signature, &v.signature)
+      && self.predicate.as_ref().map(|p| pred(p, v)).unwrap_or(true)
+  }
 }
 
 pub fn load_known() -> Result<Vec<Known>, String> {
@@ -35,6 +74,7 @@ pub fn load_known() -> Result<Vec<Known>, String> {
       signature: f["signature"].as_str().unwrap_or("").into(),
       predicate: f["predicate"].as_str().map(|s| s.to_string()),
       what: f["what"].as_str().unwrap_or("").into(),
+      reproducer: f["reproducer"].clone(),
     });
   }
   Ok(out)
@@ -82,13 +122,7 @@ pub fn finish(
   let _ = std::fs::create_dir_all(verif_dir().join("replays"));
   for f in &findings {
     let v = &f.violation;
-    let m = known.iter().find(|k| {
-      k.status == "known"
-        && k.property == rep.property
-        && k.class == v.class
-        && k.signature == v.signature
-        && k.predicate.as_ref().map(|p| pred(p, v)).unwrap_or(true)
-    });
+    let m = known.iter().find(|k| k.matches(rep.property, v, pred));
     if let Some(k) = m {
       let e = known_hit.entry(k.id.clone()).or_insert((k.what.clone(), 0));
       e.1 += 1;
